@@ -99,6 +99,11 @@ def rand_config(rng, thorough, shape=None):
         cfg["Max"][q] = rng.choice([1, 2, 3, 3, 4])
         cfg["Expiry"][q] = rng.choice([2, 3, 4])
         cfg["GcPeriod"][q] = rng.choice([1, 2, 3])
+    for q in cfg["quotas"]:
+        # a child collected more often than its parent: the two forget an expired transaction at different instants
+        if cfg["parent"][q] != "-" and rng.random() < 0.75:
+            cfg["GcPeriod"][q] = 1
+            cfg["GcPeriod"][cfg["parent"][q]] = rng.choice([2, 3])
     return cfg
 
 
@@ -107,7 +112,7 @@ def rand_history(rng, cfg, n, conc):
     h = [{"ev": "reset", "now": rng.randint(1, 5)}]
     flows = sorted(cfg["flows"])
     nxt, live, ended = 0, [], []
-    burst = rng.random() < 0.35      # saturate a quota, abandon everything, let it all expire, saturate again
+    burst = rng.random() < (0.5 if len(cfg["quotas"]) > 1 else 0.3)      # saturate a quota, abandon everything, let it all expire, saturate again
     if burst:
         f = rng.choice(flows)
         q = cfg["flows"][f]["qs"][0]
@@ -120,7 +125,8 @@ def rand_history(rng, cfg, n, conc):
             h.append({"ev": "adv", "d": far})
         else:
             # stop somewhere between expiry and the last GC pass, end some of the abandoned transactions late, go on
-            d1 = rng.randint(1, far)
+            soon = min(cfg["Expiry"][x] for x in chain(cfg, q)) + 1
+            d1 = rng.randint(min(soon, far), far) if rng.random() < 0.7 else rng.randint(1, far)
             h.append({"ev": "adv", "d": d1})
             for i in range(nxt):
                 if rng.random() < 0.6:
@@ -179,6 +185,32 @@ def rand_history(rng, cfg, n, conc):
         elif ended:
             h.append({"ev": rng.choice(["resp", "err"]), "t": rng.choice(ended)})      # a second end of the same transaction
     return h
+
+
+def late_end_histories(cfg):
+    """systematic family: a transaction is admitted, the clock moves d ticks (every d up to expiry + GC period + 1),
+    the transaction is ended late (response or proxy error), then every flow is filled once more."""
+    out = []
+    for f in sorted(cfg["flows"]):
+        qs = cfg["flows"][f]["qs"]
+        allq = [x for q in qs for x in chain(cfg, q)]
+        far = max(cfg["Expiry"][x] + cfg["GcPeriod"][x] for x in allq) + 1
+        for d in range(1, far + 1):
+            for end in ("err", "resp"):
+                h = [{"ev": "reset", "now": 1 + (d % 3)}, {"ev": "req", "t": "t0", "flow": f, "early": False},
+                     {"ev": "adv", "d": d}, {"ev": end, "t": "t0"}]
+                n = 1
+                for g in sorted(cfg["flows"]):
+                    k = min(cfg["Max"][x] for q in cfg["flows"][g]["qs"] for x in chain(cfg, q))
+                    ts = []
+                    for _ in range(min(k, 4)):
+                        if n < NTXN:
+                            ts.append("t%d" % n)
+                            h.append({"ev": "req", "t": "t%d" % n, "flow": g, "early": False})
+                            n += 1
+                    h += [{"ev": "resp", "t": t} for t in ts]
+                out.append(h)
+    return out
 
 
 def script_of_history(hist, cfg_flows):
@@ -359,7 +391,10 @@ def run(ctx):
     scripts = []
     for c in range(ncfg):
         cfg = rand_config(ctx.rng, T, shape=SHAPES[c % len(SHAPES)])
-        scripts.append(script_of(cfg, [rand_history(ctx.rng, cfg, hl, conc=(i % 2 == 1)) for i in range(nh)], hooks=True))
+        hs = [rand_history(ctx.rng, cfg, hl, conc=(i % 2 == 1)) for i in range(nh)]
+        if c < len(SHAPES) or T:
+            hs += late_end_histories(cfg)
+        scripts.append(script_of(cfg, hs, hooks=True))
     rtraces = execute(ctx, binary, scripts, "rand")
     ctx.sample({"kind": "recorded-trace", "events": rtraces[0][:14]})
     judge(ctx, binary, scripts, rtraces, "rand", seen)
